@@ -1,5 +1,6 @@
 """A small fixed project built through the real builder, with the privacy of every object delivered
-by a table (stub of System.privacyClass) so that harnesses can make privacy a symbolic variable.
+by a table - turned into one exact-name --privacy rule per object (the real rule machinery, exact rules only;
+pattern semantics and rule precedence are C13's subject) - so that harnesses can make privacy a variable.
 
 pkg/__init__.py   (package)
 pkg/a.py          class C: m(), v ; class D(C): m() ; class _P: pass
@@ -22,8 +23,11 @@ PRIV = [model.PrivacyClass.HIDDEN, model.PrivacyClass.PRIVATE, model.PrivacyClas
 
 
 def build(table=None, opts=None):
-    """-> System; table: {fullName: PrivacyClass} (missing names -> PUBLIC)."""
-    s = model.System(opts or OPTS)
+    """-> System; table: {fullName: PrivacyClass} (names not in the table keep their default privacy)."""
+    import copy
+    opts = copy.copy(opts or OPTS)
+    opts.privacy = [(priv, name) for name, priv in (table or {}).items()]
+    s = model.System(opts)
     s.msgs = []
     s.msg = lambda section, m, thresh=0, **kw: s.msgs.append((section, m, thresh))
     b = s.systemBuilder(s)
@@ -31,20 +35,22 @@ def build(table=None, opts=None):
     b.addModuleString(SRC["pkg.a"], "a", parent_name="pkg")
     b.addModuleString(SRC["pkg.b"], "b", parent_name="pkg")
     b.buildModules()
-    if table is not None:
-        set_privacy(s, table)
     return s
 
 
-def set_privacy(s, table):
-    s._privacyClassCache.clear()
-    s.privacyClass = lambda ob: table.get(ob.fullName(), model.PrivacyClass.PUBLIC)
+def default_privacy(name):
+    last = name.rsplit(".", 1)[-1]
+    return model.PrivacyClass.PRIVATE if last.startswith("_") and not (last.startswith("__") and last.endswith("__")) else model.PrivacyClass.PUBLIC
+
+
+def privacy_of(table, name):
+    return table.get(name, default_privacy(name))
 
 
 def hidden_star(table, name):
     """specification: some ancestor-or-self is HIDDEN."""
     while name is not None:
-        if table.get(name, model.PrivacyClass.PUBLIC) is model.PrivacyClass.HIDDEN:
+        if privacy_of(table, name) is model.PrivacyClass.HIDDEN:
             return True
         name = PARENT[name]
     return False
